@@ -303,6 +303,9 @@ std::vector<double> probe_points(TasmanianSparseGrid const &g, int n, uint64_t s
 Obs observe(TasmanianSparseGrid const &g, ObsOpts const &o = ObsOpts());
 // returns "" when equal, otherwise the name of the first differing field plus a short description; rel_tol = 0 -> bitwise
 std::string obs_diff(Obs const &a, Obs const &b, double rel_tol = 0.0, std::set<std::string> const &skip = std::set<std::string>());
+// fields whose values are produced by numerical integration inside a lazily grown 1-D rule cache (quadrature weights of sequence rules):
+// two objects in the same logical state can differ in the last digits there; these are compared to 1e-10 of the field's magnitude
+std::string obs_diff_state(Obs const &a, Obs const &b);
 std::string obs_serialize(Obs const &o);
 
 inline bool same_bits(double a, double b){ return dbits(a) == dbits(b) || (std::isnan(a) && std::isnan(b)); }
